@@ -59,6 +59,7 @@ type Contract struct {
 	NativeStr    bool
 	Props        []string // property ids this contract serves
 	Asserts      []*Clause
+	Before       map[string][]*Clause // callee short name -> assertions checked before each call
 	resolved     bool
 }
 
@@ -109,7 +110,8 @@ type PkgSpec struct {
 	Order     []string
 	Preds     map[string]*Pred
 	Guarded   map[string][]string // "T.mu" -> fields
-	Monitors  map[string]string   // "T.mu" -> invariant predicate name
+	Monitors  map[string][]string // "T.mu" -> invariant predicate names
+	Relies    map[string]string   // "T.mu" -> two-state predicate (old() = state at acquisition)
 	PureExt   []string
 	Lemmas    []*Lemma
 	RecFuncs  map[string]*RecFunc
@@ -124,7 +126,7 @@ type RecFunc struct {
 	Body   string // SMT body (raw)
 }
 
-var clauseKW = regexp.MustCompile(`^(requires|ensures|modifies|held|acquires|loop|option|props|assert)\b`)
+var clauseKW = regexp.MustCompile(`^(requires|ensures|modifies|held|acquires|loop|option|props|assert|before)\b`)
 var labelRe = regexp.MustCompile(`^([A-Za-z][A-Za-z0-9_\-]*):\s+(.*)$`)
 
 func parseClause(src string, line int) (*Clause, error) {
@@ -147,7 +149,7 @@ func parseContractFile(path, pkgPath string) (*PkgSpec, error) {
 	if err != nil {
 		return nil, err
 	}
-	ps := &PkgSpec{Path: pkgPath, Contracts: map[string]*Contract{}, Preds: map[string]*Pred{}, Guarded: map[string][]string{}, Monitors: map[string]string{}, RecFuncs: map[string]*RecFunc{}, File: path}
+	ps := &PkgSpec{Path: pkgPath, Contracts: map[string]*Contract{}, Preds: map[string]*Pred{}, Guarded: map[string][]string{}, Monitors: map[string][]string{}, Relies: map[string]string{}, RecFuncs: map[string]*RecFunc{}, File: path}
 	text := string(data)
 	lines := strings.Split(text, "\n")
 	in := false
@@ -217,11 +219,15 @@ func parseContractFile(path, pkgPath string) (*PkgSpec, error) {
 				ps.Guarded[m[1]] = append(ps.Guarded[m[1]], strings.TrimSpace(f))
 			}
 		case strings.HasPrefix(t, "monitor "):
-			m := regexp.MustCompile(`^monitor\s+(\S+)\s+inv\s+(\S+)$`).FindStringSubmatch(t)
+			m := regexp.MustCompile(`^monitor\s+(\S+)\s+(inv|rely)\s+(\S+)$`).FindStringSubmatch(t)
 			if m == nil {
 				return nil, fail(fmt.Errorf("bad monitor"))
 			}
-			ps.Monitors[m[1]] = m[2]
+			if m[2] == "inv" {
+				ps.Monitors[m[1]] = append(ps.Monitors[m[1]], m[3])
+			} else {
+				ps.Relies[m[1]] = m[3]
+			}
 		case strings.HasPrefix(t, "pure "):
 			ps.PureExt = append(ps.PureExt, strings.TrimSpace(strings.TrimPrefix(t, "pure ")))
 		case strings.HasPrefix(t, "recfunc "):
@@ -302,6 +308,20 @@ func parseContractFile(path, pkgPath string) (*PkgSpec, error) {
 				return nil, fail(err)
 			}
 			cur.HeldAtEntry = append(cur.HeldAtEntry, e)
+		case strings.HasPrefix(t, "before "):
+			rest := strings.TrimSpace(strings.TrimPrefix(t, "before "))
+			k := strings.IndexAny(rest, " \t")
+			if k < 0 {
+				return nil, fail(fmt.Errorf("bad before clause"))
+			}
+			c, err := parseClause(strings.TrimSpace(rest[k:]), it.line)
+			if err != nil {
+				return nil, fail(err)
+			}
+			if cur.Before == nil {
+				cur.Before = map[string][]*Clause{}
+			}
+			cur.Before[rest[:k]] = append(cur.Before[rest[:k]], c)
 		case strings.HasPrefix(t, "acquires "):
 			e, err := parseSpecExpr(strings.TrimSpace(strings.TrimPrefix(t, "acquires ")))
 			if err != nil {
